@@ -18,7 +18,7 @@ thread_local! {
     static LEVELS: RefCell<Option<(usize, usize)>> = RefCell::new(None);
 }
 
-pub fn props_of(_case: &Value) -> Vec<&'static str> { vec!["C23"] }
+pub fn props_of(_case: &Value) -> Vec<&'static str> { vec!["C23", "C22"] }
 thread_local! { static STRESS_DONE: std::cell::Cell<bool> = std::cell::Cell::new(false); }
 
 fn atom(s: &str) -> Unifiable { Unifiable::Atom(s.to_string()) }
@@ -115,6 +115,7 @@ pub fn replay(case: &Value) -> Vec<Obs> {
     hooks::release_gate_at_count(0);
     hooks::callback_done();
     let mut gate_pending = false;        // a callback is waiting at the gate
+    let mut c22_bad = false;
     for i in 1..=nq {
         let own = cbs.iter().find(|(t, _, _)| *t == i);
         let slow = own.is_some();
@@ -182,6 +183,8 @@ pub fn replay(case: &Value) -> Vec<Obs> {
         let stopped = query_stopped();
         let mut n = 0;
         while let Some(_) = next_solution(Rc::clone(&sn)) { n += 1; if n > 10 { break; } }
+        // (C22 as well: what this query answers must not depend on the queries before it -- on a timer one of them left behind)
+        if stopped || n != 4 { c22_bad = true; }
         if stopped || n != 4 { bad = Some(format!("1.25 s after the last query had reported (within its limit) the stop flag is {} and a query built before the pause finds {} of 4 answers: a timer outlived its query", stopped, n)); }
         log.push_str(&format!(" | after a pause: flag {}, {} answers", stopped, n));
     }
@@ -195,5 +198,8 @@ pub fn replay(case: &Value) -> Vec<Obs> {
         log.push_str(&format!(" | after: {} answers", n));
     }
     let what = format!("schedule {} ::{}", sig, log);
-    match bad { None => vec![Obs::ok("C23", "schedule")], Some(b) => vec![Obs::bad("C23", "wrong-report", format!("{} :: {}", b, what))] }
+    let mut obs = match &bad { None => vec![Obs::ok("C23", "schedule")], Some(b) => vec![Obs::bad("C23", "wrong-report", format!("{} :: {}", b, what))] };
+    if c22_bad { obs.push(Obs::bad("C22", "query-after-a-pause", format!("{} :: {}", bad.clone().unwrap_or_default(), what))); }
+    else if bad.is_none() { obs.push(Obs::ok("C22", "query-after-a-pause")); }
+    obs
 }
